@@ -632,6 +632,14 @@ fn run_ops<'db>(db: &'db dyn Vd, ctx: &Ctx, f: &mut Frame<'db>, ops: &[Op]) {
                     on_ent_spec::specify(db, e, Out::bare(v));
                 }
             }
+            Op::SpecifyAny { h, val } => {
+                if !f.ents.is_empty() {
+                    let e = f.ents[*h as usize % f.ents.len()];
+                    let v = src_val(*val, f.acc) % VMOD;
+                    f.rec.specified.push((e.as_id().as_bits(), v));
+                    on_ent_spec::specify(db, e, Out::bare(v));
+                }
+            }
             Op::Intern { ty, x } => {
                 let xv = src_val(*x, f.acc);
                 let s = match ty {
